@@ -361,7 +361,7 @@ def replay_one(job):
     universe = job["universe"]
     init = project.observe(gfa, pool, universe)
     evs = []
-    signal.signal(signal.SIGALRM, _alarm)
+    signal.signal(signal.SIGVTALRM, _alarm)
     answers = {}
     refused_since = {}
     probe, probe_ans = job.get("probe"), None
@@ -369,7 +369,7 @@ def replay_one(job):
         res = "ok"
         exc = ""
         qsame, qdiff = 1, []
-        signal.setitimer(signal.ITIMER_REAL, 5.0)
+        signal.setitimer(signal.ITIMER_VIRTUAL, 5.0)
         mutating = op["k"] not in ("query", "unused", "validate")
         try:
             if probe and mutating and probe_ans is None:
@@ -416,7 +416,7 @@ def replay_one(job):
                 except BaseException:  # noqa
                     probe_ans = None
         finally:
-            signal.setitimer(signal.ITIMER_REAL, 0)
+            signal.setitimer(signal.ITIMER_VIRTUAL, 0)
         lidx = 0
         if op.get("text"):
             lidx = pool.add(abstract_input(op["text"]))
